@@ -29,8 +29,9 @@ def grantCode (mt : MemTopics) (c : Nat) (tq : Bytes × Nat) : Nat :=
 /-! ### the representation invariant -/
 
 /-- `Inv` (both tries well-formed - unique Go-map keys, one entry per subscriber
-and node -; every live connection's session reference resolves) holds of the
-initial state and is preserved by every event. -/
+and node -; every stored retained message has RETAIN set; every live
+connection's session reference resolves) holds of the initial state and is
+preserved by every event. -/
 theorem C07_inv_step : Inv {} ∧ ∀ (b : B) (e : Ev), Inv b → Inv (step b e).1 :=
   ⟨Inv_init, Inv_step⟩
 
